@@ -230,7 +230,7 @@ SAN = ["-fsanitize=address,undefined", "-fno-sanitize-recover=all", "-fno-omit-f
 TSAN = ["-fsanitize=thread"]
 
 
-def build_harness(name, src, repo_srcs=(), flags=(), san=SAN, std="c++11", libs=(), opt="-O1"):
+def build_harness(name, src, repo_srcs=(), flags=(), san=SAN, std="c++11", libs=(), opt="-O1", extra_deps=()):
     """Compile harness `src` (+ listed /repo sources) against /repo's working tree.
     Cached by content hash of the harness, flags and the whole rkcommon source tree.
     Returns (path or None, compiler output)."""
@@ -241,6 +241,8 @@ def build_harness(name, src, repo_srcs=(), flags=(), san=SAN, std="c++11", libs=
     h.update(open(srcp, "rb").read())
     if os.path.exists(common):
         h.update(open(common, "rb").read())
+    for dep in extra_deps:
+        h.update(open(os.path.join(ROOT, dep), "rb").read())
     h.update(repr((name, list(repo_srcs), list(flags), list(san), std, list(libs), opt, REPO)).encode())
     h.update(repo_hash().encode())
     key = h.hexdigest()[:24]
